@@ -37,7 +37,8 @@ type srcEntry struct {
 	term, index uint64
 	ts          int64
 	cmds        [][]string
-	data        []byte
+	data        []byte // framed as the log syncer sends it
+	raw         []byte // the source cluster's own entry (what its log syncer learner applies)
 }
 
 func buildSource(t *rapid.T, cluster string, keys []string, n int, base int64) []srcEntry {
@@ -81,6 +82,7 @@ func buildSource(t *rapid.T, cluster string, keys []string, n int, base int64) [
 		// what the log syncer of the source cluster sends (node/syncer_learner.go logSyncerSM.ApplyRaftRequest):
 		// the request list of the source entry, stamped with source cluster, term, index and marked as coming from a syncer
 		ent := simkv.BuildEntry(uint64(i), ts, lc)
+		e.raw = append([]byte(nil), ent.Data...)
 		var rl node.BatchInternalRaftRequest
 		if err := rl.Unmarshal(ent.Data); err != nil {
 			t.Fatalf("HARNESS: %v", err)
